@@ -1,6 +1,6 @@
 //! control-message (cmsg) operations of the C13 harness: real `AncillaryBuf`/`AncillaryBuilder`/`AncillaryIter`.
 
-use compio_io::ancillary::{AncillaryBuf, AncillaryIter, CodecError};
+use compio_io::ancillary::{AncillaryBuf, AncillaryData, AncillaryIter, CodecError};
 use hx_common::*;
 
 #[repr(C, align(8))]
@@ -14,6 +14,37 @@ struct Msg {
     level: i32,
     ty: i32,
     data: Vec<u8>,
+    /// the payload encoder of this message refuses (returns `CodecError::Other` before writing anything)
+    refuse: bool,
+}
+
+/// a payload type with validation in `encode` (a user-defined `AncillaryData`): same size and
+/// bytes as `[u8; N]`, but the encoder can refuse. A refused push must leave the builder unchanged.
+struct Picky<const N: usize> {
+    data: [u8; N],
+    refuse: bool,
+}
+
+impl<const N: usize> AncillaryData for Picky<N> {
+    const SIZE: usize = N;
+
+    fn encode(&self, buffer: &mut [std::mem::MaybeUninit<u8>]) -> Result<(), CodecError> {
+        if self.refuse {
+            return Err(CodecError::other("harness-encoder-refused"));
+        }
+        if buffer.len() < N {
+            return Err(CodecError::BufferTooSmall);
+        }
+        for (d, s) in buffer.iter_mut().zip(self.data) {
+            *d = std::mem::MaybeUninit::new(s);
+        }
+        Ok(())
+    }
+
+    fn decode(buffer: &[u8]) -> Result<Self, CodecError> {
+        let data: [u8; N] = buffer.get(..N).ok_or(CodecError::BufferTooSmall)?.try_into().unwrap();
+        Ok(Picky { data, refuse: false })
+    }
 }
 
 fn parse_msgs(s: &str) -> Vec<Msg> {
@@ -23,7 +54,7 @@ fn parse_msgs(s: &str) -> Vec<Msg> {
     s.split(',')
         .map(|m| {
             let p: Vec<&str> = m.split(':').collect();
-            Msg { level: p[0].parse().unwrap(), ty: p[1].parse().unwrap(), data: unhex(p[2]) }
+            Msg { level: p[0].parse().unwrap(), ty: p[1].parse().unwrap(), data: unhex(p[2]), refuse: p.get(3) == Some(&"R") }
         })
         .collect()
 }
@@ -123,11 +154,16 @@ fn build(cap: usize, msgs: &[Msg]) -> (Vec<String>, Vec<u8>) {
             for m in msgs {
                 let r = with_size!(m.data.len(), N, {
                     let arr: [u8; N] = m.data.clone().try_into().unwrap();
-                    b.push(m.level, m.ty, &arr)
+                    if m.refuse {
+                        b.push(m.level, m.ty, &Picky::<N> { data: arr, refuse: true })
+                    } else {
+                        b.push(m.level, m.ty, &arr)
+                    }
                 });
                 res.push(match r {
                     Ok(()) => "ok".to_string(),
                     Err(CodecError::BufferTooSmall) => "small".to_string(),
+                    Err(_) if m.refuse => "refused".to_string(),
                     Err(_) => "other".to_string(),
                 });
             }
@@ -168,6 +204,22 @@ pub fn exec(w: &[&str], line: &str, ex: &mut Exec) -> String {
                         .collect();
                     if items != expect {
                         ex.fail("C13:cmsg-roundtrip", format!("{line}: got {items:?} expected {expect:?}"));
+                    }
+                    // monitor: "any list of messages that fits the buffer": when the CMSG_SPACE of all
+                    // messages whose encoder does not refuse fits the capacity, none is turned away
+                    let need: usize = msgs.iter().filter(|m| !m.refuse).map(|m| m.data.len().div_ceil(8) * 8 + 16).sum();
+                    if need <= cap && msgs.iter().zip(&res).any(|(m, r)| !m.refuse && r != "ok") {
+                        ex.fail("C13:cmsg-fit-rejected", format!("{line}: {need} bytes needed, capacity {cap}, results {res:?}"));
+                    }
+                    // monitor: a push whose encoder refuses reports the error (never ok)
+                    if msgs.iter().zip(&res).any(|(m, r)| m.refuse && r == "ok") {
+                        ex.fail("C13:cmsg-refused-accepted", format!("{line}: results {res:?}"));
+                    }
+                    if res.iter().any(|r| r == "refused") {
+                        ex.tag(format!("cmsg:build:refused:then-ok={}", {
+                            let first = res.iter().position(|r| r == "refused").unwrap();
+                            res[first..].iter().filter(|r| *r == "ok").count().min(2)
+                        }));
                     }
                     ex.tag(format!("cmsg:build:ok={}:small={}", expect.len().min(4), res.iter().filter(|r| *r == "small").count().min(3)));
                     format!(
@@ -249,12 +301,20 @@ pub fn generate(rng: &mut Rng) -> Vec<String> {
                 let n = *rng.pick(&SIZES);
                 rng.bytes(n)
             },
+            refuse: false,
         })
         .collect();
+    let mut msgs = msgs;
+    let with_refusals = rng.chance(1, 3);
+    if with_refusals {
+        for m in msgs.iter_mut() {
+            m.refuse = rng.chance(1, 3);
+        }
+    }
     let ms = if msgs.is_empty() {
         ".".to_string()
     } else {
-        msgs.iter().map(|m| format!("{}:{}:{}", m.level, m.ty, hex(&m.data))).collect::<Vec<_>>().join(",")
+        msgs.iter().map(|m| format!("{}:{}:{}{}", m.level, m.ty, hex(&m.data), if m.refuse { ":R" } else { "" })).collect::<Vec<_>>().join(",")
     };
     match rng.below(4) {
         0 | 1 => lines.push(format!("cmsg build {cap} {ms}")),
